@@ -45,6 +45,13 @@ where
             &revisions.accumulated_inputs,
         );
 
+        #[cfg(salsa_rs_salsa_verif)]
+        crate::verif_life::memo_handout(
+            std::ptr::from_ref(memo) as usize,
+            id.index(),
+            self.memo_ingredient_index(zalsa, id).as_usize(),
+        );
+
         memo_value
     }
 
